@@ -5,7 +5,7 @@ import ast
 
 from .. import cfg as C
 from ..amatch import AM
-from ..flow import rename
+from ..flow import expand, rename
 from ..report import AnalysisError
 from ..srcmodel import norm
 
@@ -117,16 +117,20 @@ def rule_ab(ctx):
     same = len({tuple(v) for v in defsets.values()}) == 1
     ctx.ob(Rb, f.qname, "the same definitions of the selection reach data, origin voxel and opposite voxel", same, str(defsets), data_node.stmt)
     # origin / opposite via the coordinate system
-    assigns = {}
-    for n in ast.walk(f.node):
-        if isinstance(n, ast.Assign) and len(n.targets) == 1 and isinstance(n.targets[0], ast.Name):
-            assigns.setdefault(n.targets[0].id, []).append(n.value)
-    ov = norm(use_nodes["origin voxel (.start)"].stmt.targets[0])
-    pv = norm(use_nodes["opposite voxel (.stop)"].stmt.targets[0])
-    o_name = [k for k, vs in assigns.items() if any(norm(v) == f"self.coordinatesystem.coordinate({ov})" for v in vs)]
-    p_name = [k for k, vs in assigns.items() if any(norm(v) == f"self.coordinatesystem.coordinate({pv})" for v in vs)]
-    ctx.ob(Rb, f.qname, "origin = coordinatesystem.coordinate(origin voxel)", len(o_name) == 1, str(o_name), f.node)
-    ctx.ob(Rb, f.qname, "opposite = coordinatesystem.coordinate(opposite voxel)", len(p_name) == 1, str(p_name), f.node)
+    def through_coordinate(label):
+        """The voxel list built over .start/.stop is the argument of self.coordinatesystem.coordinate (directly or through one local)."""
+        st = use_nodes[label].stmt
+        comp = next(c for c in ast.walk(st.value) if isinstance(c, (ast.ListComp, ast.GeneratorExp)))
+        par = getattr(comp, "_parent", None)
+        if isinstance(par, ast.Call) and norm(par.func) == "self.coordinatesystem.coordinate" and par.args and par.args[0] is comp:
+            return True
+        if st.value is comp and isinstance(st.targets[0], ast.Name):
+            nm = st.targets[0].id
+            calls = [c for c in ast.walk(f.node) if isinstance(c, ast.Call) and norm(c.func) == "self.coordinatesystem.coordinate" and [norm(a) for a in c.args] == [nm]]
+            return len(calls) == 1
+        return False
+    ctx.ob(Rb, f.qname, "origin = coordinatesystem.coordinate(origin voxel)", through_coordinate("origin voxel (.start)"), "", f.node)
+    ctx.ob(Rb, f.qname, "opposite = coordinatesystem.coordinate(opposite voxel)", through_coordinate("opposite voxel (.stop)"), "", f.node)
     # the start/stop comprehensions substitute the full extent for None only
     for label, attr, dflt in (("origin voxel (.start)", "start", "0"), ("opposite voxel (.stop)", "stop", "self.num_voxels[")):
         st = use_nodes[label].stmt
@@ -135,9 +139,20 @@ def rule_ab(ctx):
         ok = (isinstance(e, ast.IfExp) and norm(e.test).endswith(f".{attr} is None") and norm(e.body).startswith(dflt) and norm(e.orelse).endswith(f".{attr}")) \
             or norm(e).endswith(f".{attr}")
         ctx.ob(Rb, f.qname, f"{label}: the slice's own {attr} (full extent when None)", ok, norm(e), st)
-    if o_name and p_name:
-        cd = [k for k, vs in assigns.items() if any(norm(v) in (f"np.absolute({p_name[0]} - {o_name[0]})", f"np.abs({p_name[0]} - {o_name[0]})",
-                                                                   f"np.absolute({o_name[0]} - {p_name[0]})", f"np.abs({o_name[0]} - {p_name[0]})") for v in vs)]
+    if True:
+        # Cartesian extent: the one |a - b| whose operands expand to coordinate(stop voxels) and coordinate(start voxels)
+        def expanded(label):
+            st = use_nodes[label].stmt
+            comp = next(c for c in ast.walk(st.value) if isinstance(c, (ast.ListComp, ast.GeneratorExp)))
+            return f"self.coordinatesystem.coordinate({norm(expand(f.node, comp))})"
+        eo, ep = expanded("origin voxel (.start)"), expanded("opposite voxel (.stop)")
+        cd = []
+        for s_ in ast.walk(f.node):
+            if isinstance(s_, ast.Assign) and len(s_.targets) == 1 and isinstance(s_.targets[0], ast.Name) and isinstance(s_.value, ast.Call) \
+                    and norm(s_.value.func) in ("np.absolute", "np.abs") and len(s_.value.args) == 1 and isinstance(s_.value.args[0], ast.BinOp) and isinstance(s_.value.args[0].op, ast.Sub):
+                l, r = norm(expand(f.node, s_.value.args[0].left)), norm(expand(f.node, s_.value.args[0].right))
+                if {l, r} == {eo, ep}:
+                    cd.append(s_.targets[0].id)
         ctx.ob(Rb, f.qname, "Cartesian extent = |opposite - origin|", len(cd) == 1, str(cd), f.node)
         # dimensions loop
         interp = m.func(IDX, "interpret_indexing")
@@ -278,11 +293,11 @@ def rule_d(ctx):
     other = f.params[1]
     ctx.instance(R)
     # slices
-    sl = [n for n in ast.walk(f.node) if isinstance(n, ast.Assign) and isinstance(n.value, ast.BinOp) and isinstance(n.value.op, ast.Add)
-          and isinstance(n.value.left, ast.Call) and isinstance(n.value.right, ast.Call)]
-    ok = any(norm(n.value.left.args[0]) == "self" and norm(n.value.right.args[0]) == other and norm(n.value.left.func) == norm(n.value.right.func)
-             for n in sl if n.value.left.args and n.value.right.args)
-    ctx.ob(R, f.qname, "data slices: slice_image(self) + slice_image(image)", ok, str([norm(n) for n in sl]), f.node)
+    st = [n for n in ast.walk(f.node) if isinstance(n, ast.Call) and norm(n.func) == "np.stack"]
+    stacked = expand(f.node, st[0].args[0]) if len(st) == 1 and st[0].args else None
+    ok = isinstance(stacked, ast.BinOp) and isinstance(stacked.op, ast.Add) and isinstance(stacked.left, ast.Call) and isinstance(stacked.right, ast.Call) \
+        and [norm(a) for a in stacked.left.args] == ["self"] and [norm(a) for a in stacked.right.args] == [other] and norm(stacked.left.func) == norm(stacked.right.func)
+    ctx.ob(R, f.qname, "data slices: slice_image(self) + slice_image(image) is what is stacked", ok, norm(stacked)[:120] if stacked is not None else "", f.node)
     st = [n for n in ast.walk(f.node) if isinstance(n, ast.Call) and norm(n.func) == "np.stack"]
     ctx.ob(R, f.qname, "stacked on axis=self.space_dim", len(st) == 1 and any(k.arg == "axis" and norm(k.value) == "self.space_dim" for k in st[0].keywords),
            str([norm(s) for s in st]), f.node)
